@@ -8,6 +8,7 @@ CONSTANTS
   DevD6 = TRUE
   DevD7 = TRUE
   DevD14 = TRUE
+  DevGiveUp = FALSE
 INVARIANT P_C13
 VIEW MCView
 CHECK_DEADLOCK FALSE
